@@ -50,7 +50,8 @@ ASSUMPTIONS = [
     "template operands only in rotation numerators (what the instruction classes accept)",
 ]
 PROBES = ["deferred-commit", "precompiled-segment", "template-used", "flush-after-precompile", "nv-transpiler", "loop-in-precompiled",
-          "value-crosses-precompile", "regfuture-in-precompiled", "two-precompiled-segments", "instantiated-more-than-once"]
+          "value-crosses-precompile", "regfuture-in-precompiled", "two-precompiled-segments", "instantiated-more-than-once", "committed-without-instantiate",
+          "instantiate-retried-after-a-missing-value"]
 
 ALLOW = {"qblock", "qubit", "gate", "measure", "array", "loop", "loop-start-step", "rot", "add", "if", "empty-body", "regfuture"}
 
@@ -78,19 +79,27 @@ def templates_in(x: Any, acc: List[str]) -> None:
             templates_in(y, acc)
 
 
-def templatise(stmts: List[tuple], ch: Choices, counter: List[int]) -> List[tuple]:
+LABELISH = ["LOOP", "IF_EXIT", "LOOP_EXIT", "LOOP1", "IF_EXIT1", "WHILE", "LOOP_EXIT1", "LOOP2"]
+
+
+def tname(i: int, labelish: bool) -> str:
+    """template names: t0, t1, ... or (per run) names that the builder also uses for its branch labels"""
+    return LABELISH[i] if labelish and i < len(LABELISH) else f"t{i}"
+
+
+def templatise(stmts: List[tuple], ch: Choices, counter: List[int], labelish: bool = False) -> List[tuple]:
     """replace some rotation numerators by template operands"""
     out = []
     for s in stmts:
         if s[0] == "rot" and ch.flag(2, 3, "tmpl"):
             if counter[0] > 0 and ch.flag(1, 3, "reuse"):
-                nm = f"t{ch.draw(counter[0], 'which')}"     # one template name used by several rotations
+                nm = tname(ch.draw(counter[0], 'which'), labelish)     # one template name used by several rotations
             else:
-                nm = f"t{counter[0]}"
+                nm = tname(counter[0], labelish)
                 counter[0] += 1
             out.append(("rot", s[1], s[2], ("tmpl", nm), s[4]))
         elif s[0] in ("loop", "if", "foreach", "enumerate"):
-            out.append(tuple(templatise(x, ch, counter) if isinstance(x, list) and x and isinstance(x[0], tuple) else x
+            out.append(tuple(templatise(x, ch, counter, labelish) if isinstance(x, list) and x and isinstance(x[0], tuple) else x
                              for x in s))
         else:
             out.append(s)
@@ -192,6 +201,7 @@ def run(ch: Choices, opts: Dict[str, Any]) -> Dict[str, Any]:
     allow = ALLOW if not nv else (ALLOW - {"loop", "if", "empty-body"})
     gen = HostGen(ch, max_qubits=budget - (1 if nv else 0), avoid=avoid, allow=allow, max_depth=2)
     counter = [0]
+    labelish = (not calm) and ch.flag(1, 4, "labelish-names")
     segments: List[Dict[str, Any]] = []
     for si in range(n_seg):
         stmts: List[tuple] = []
@@ -205,7 +215,7 @@ def run(ch: Choices, opts: Dict[str, Any]) -> Dict[str, Any]:
                 gen.live.remove(q)
         pre = ch.flag(1, 2, "precompile")
         if pre:
-            stmts = templatise(stmts, ch, counter)
+            stmts = templatise(stmts, ch, counter, labelish)
         names: List[str] = []
         templates_in(stmts, names)
         # mostly ordinary numerators; sometimes values at and beyond the 8-bit immediate (both routes wrap those alike)
@@ -216,7 +226,8 @@ def run(ch: Choices, opts: Dict[str, Any]) -> Dict[str, Any]:
         defer = pre and si < n_seg - 1 and ch.flag(1, 3, "defer")
         rounds = [{nm: ch.draw(32, "rval") for nm in names} for _ in range(1 + ch.draw(2, "nrounds"))] \
             if (pre and names and ch.flag(1, 3, "rounds")) else []
-        segments.append({"stmts": stmts, "precompile": pre, "values": values, "defer": defer, "rounds": rounds})
+        segments.append({"stmts": stmts, "precompile": pre, "values": values, "defer": defer, "rounds": rounds,
+                         "skip_instantiate": ch.flag(1, 2, "skipinst"), "failed_first": ch.flag(1, 3, "failedfirst")})
     faults: Dict[str, int] = {}
     probes: Dict[str, int] = {}
 
@@ -267,7 +278,20 @@ def run(ch: Choices, opts: Dict[str, Any]) -> Dict[str, Any]:
                     if seg["defer"]:
                         pending.append((sub, seg["values"]))
                     else:
-                        sub.instantiate(A.conn.app_id, dict(seg["values"]))
+                        if not seg["values"] and seg.get("skip_instantiate"):
+                            # nothing to fill in: the compiled subroutine is committed as it is
+                            bump(probes, "committed-without-instantiate")
+                        else:
+                            if len(seg["values"]) >= 2 and seg.get("failed_first"):
+                                # injected fault: the first call has only some of the values (KeyError half-way); the
+                                # complete call afterwards must still see the whole subroutine
+                                part = dict(list(seg["values"].items())[:1])
+                                try:
+                                    sub.instantiate(A.conn.app_id, part)
+                                except KeyError:
+                                    bump(faults, "instantiate-called-with-a-value-missing")
+                                    bump(probes, "instantiate-retried-after-a-missing-value")
+                            sub.instantiate(A.conn.app_id, dict(seg["values"]))
                         A.conn.commit_subroutine(sub)
                 n_pre += 1
                 bump(probes, "precompiled-segment")
